@@ -369,3 +369,19 @@ Proof.
 Qed.
 
 End Codec.
+
+(* a toy prefix-free codec for concrete witnesses: the value n is written as n+1 bytes *)
+Definition toy_enc (v : nat) : bytes := repeat 7 v ++ [0].
+Fixpoint toy_dec (b : bytes) : option nat :=
+  match b with
+  | [] => None
+  | [0] => Some 0
+  | 7 :: b' => match toy_dec b' with Some n => Some (S n) | None => None end
+  | _ => None
+  end.
+Lemma toy_roundtrip : roundtrip nat toy_enc toy_dec.
+Proof.
+  intros v. unfold toy_enc. induction v as [|v IH]; [reflexivity|].
+  cbn [repeat app]. cbn [toy_dec]. rewrite IH.
+  destruct (repeat 7 v ++ [0]) eqn:E; [destruct v; discriminate|reflexivity].
+Qed.
